@@ -5,6 +5,8 @@ import (
 	"go/ast"
 	"go/types"
 	"strings"
+
+	"golang.org/x/tools/go/ssa"
 )
 
 // C02 stage-machine: resumable reset / jump are switch-with-fallthrough machines over stateChangeStage.
@@ -283,4 +285,235 @@ func onlyComments(ss []ast.Stmt) bool {
 		}
 	}
 	return true
+}
+
+// ruleResumePath: what the start-up path needs before it can dispatch on the stage marker must survive every stage,
+// and in-memory state a stage establishes must be re-established when that stage is skipped on resume.
+func ruleResumePath(c *Ctx) {
+	pk := c.P.Pkg("pkg/core")
+	in := c.P.Func("pkg/core", "Blockchain", "init")
+	if pk == nil || in == nil {
+		c.Lost("anchor", "Blockchain.init not found")
+		return
+	}
+	info := pk.TypesInfo
+	f := c.P.NewFuncCFG(in)
+	g := c.P.MRG()
+	// position of the dispatch: the condition testing the result of reading the stage marker
+	var dispatchPos ast.Node
+	inspectNoLit(in.Decl.Body, func(n ast.Node) bool {
+		if call, ok := n.(*ast.CallExpr); ok && dispatchPos == nil && f.DirectMentions(call)["pkg/core/storage.SYSStateChangeStage"] {
+			dispatchPos = call
+		}
+		return true
+	})
+	if dispatchPos == nil {
+		c.Lost("init.dispatch", "Blockchain.init does not read the stage marker")
+		return
+	}
+	// module functions called by init before the dispatch
+	var pre []*ssa.Function
+	var preNames []string
+	inspectNoLit(in.Decl.Body, func(n ast.Node) bool {
+		call, ok := n.(*ast.CallExpr)
+		if !ok || call.Pos() >= dispatchPos.Pos() {
+			return true
+		}
+		var fo *types.Func
+		switch fn := ast.Unparen(call.Fun).(type) {
+		case *ast.Ident:
+			fo, _ = info.ObjectOf(fn).(*types.Func)
+		case *ast.SelectorExpr:
+			fo, _ = info.ObjectOf(fn.Sel).(*types.Func)
+		}
+		if fo != nil && InModule(fo.Pkg()) {
+			if sf := c.P.SSAFunc(fo.Origin()); sf != nil {
+				pre = append(pre, sf)
+				preNames = append(preNames, fo.Name())
+			}
+		}
+		return true
+	})
+	preReach := g.Reach(pre, nil)
+	readers := map[string]string{"pkg/core/dao.(*Simple).GetBlock": "block/header records", "pkg/core/dao.(*Simple).GetHeader": "block/header records", "pkg/core/dao.(*Simple).getBlock": "block/header records"}
+	deleters := map[string]string{"pkg/core/dao.(*Simple).DeleteBlock": "block/header records", "pkg/core/dao.(*Simple).PurgeHeader": "block/header records"}
+	needs := map[string]string{} // data class -> reader path
+	for fn := range preReach {
+		if cls, ok := readers[FnKey(fn)]; ok {
+			if _, seen := needs[cls]; !seen {
+				needs[cls] = strings.Join(g.PathTo(preReach, fn), " -> ")
+			}
+		}
+	}
+	c.Floor("module calls made by init before the stage dispatch", len(pre), 3)
+	// stage clauses that delete such data before a later stage marker is recorded
+	for _, fd := range c.P.AllFuncDecls() {
+		if fd.Pkg != pk || fd.Decl.Body == nil {
+			continue
+		}
+		sws := constSwitches(info, fd.Decl.Body, "pkg/core", "stateChangeStage")
+		for _, arms := range sws {
+			if len(arms) < 3 {
+				continue
+			}
+			mf := c.P.NewFuncCFG(fd)
+			name := fd.Decl.Name.Name
+			recv := mf.recvObj(fd)
+			for i, arm := range arms {
+				if arm.Default || len(arm.Consts) == 0 {
+					continue
+				}
+				lbl := arm.Consts[0]
+				for _, s := range arm.Body {
+					ast.Inspect(s, func(n ast.Node) bool {
+						call, ok := n.(*ast.CallExpr)
+						if !ok {
+							return true
+						}
+						cs := mf.calleeSym(call)
+						// (1) deletes what the start-up path reads before dispatching; harmless only in the last working stage
+						inLoop := false
+						for _, st2 := range arm.Body {
+							ast.Inspect(st2, func(q ast.Node) bool {
+								switch l := q.(type) {
+								case *ast.ForStmt:
+									if containsNode(l, call) {
+										inLoop = true
+									}
+								case *ast.RangeStmt:
+									if containsNode(l, call) {
+										inLoop = true
+									}
+								}
+								return true
+							})
+						}
+						movesPointer := false
+						for _, st2 := range arm.Body {
+							ast.Inspect(st2, func(q ast.Node) bool {
+								if qc, ok := q.(*ast.CallExpr); ok && mf.calleeSym(qc) == "pkg/core/dao.(*Simple).PutCurrentHeader" {
+									movesPointer = true
+								}
+								return true
+							})
+						}
+						// a whole range of recent blocks is removed while the current-header pointer init starts from stays
+						if cls, ok := deleters[cs]; ok && needs[cls] != "" && i+2 < len(arms) && inLoop && !movesPointer {
+							c.Fail(fmt.Sprintf("%s.stage.%s.deletes-startup-data.%s", name, lbl, shortSym(cs)), c.P.Pos(call.Pos()),
+								fmt.Sprintf("%s: stage %s deletes %s (%s), which Blockchain.init reads BEFORE it looks at the stage marker (%s): after a crash once this stage has persisted, the node cannot start and therefore cannot resume", name, lbl, cls, shortSym(cs), needs[cls]))
+						}
+						// (2) in-memory state of a long-lived module established only inside this clause
+						se, isSel := call.Fun.(*ast.SelectorExpr)
+						if !isSel || recv == nil || rootObj(info, se.X) != recv {
+							return true
+						}
+						fo, _ := info.ObjectOf(se.Sel).(*types.Func)
+						if fo == nil || fo.Pkg() == nil || !InModule(fo.Pkg()) || fo.Pkg() == pk.Types {
+							return true
+						}
+						if rel := pkgRel(fo.Pkg()); rel == "pkg/core/dao" || rel == "pkg/core/storage" {
+							return true // the persistent layers: their in-memory content is what the stages persist
+						}
+						sig := fo.Type().(*types.Signature)
+						if sig.Recv() == nil {
+							return true
+						}
+						rt := sig.Recv().Type()
+						if p, ok := rt.(*types.Pointer); ok {
+							rt = p.Elem()
+						}
+						nt, ok := rt.(*types.Named)
+						if !ok {
+							return true
+						}
+						if _, isStruct := nt.Underlying().(*types.Struct); !isStruct {
+							return true
+						}
+						// does the callee (transitively, in its package) write fields of its receiver type?
+						ws := c.P.PkgWriteSummary(pkgRel(fo.Pkg()))
+						st := nt.Underlying().(*types.Struct)
+						var memFields []string
+						for j := 0; j < st.NumFields(); j++ {
+							if ws.Trans[fo.Origin()][symOf(st.Field(j))] {
+								memFields = append(memFields, st.Field(j).Name())
+							}
+						}
+						if len(memFields) == 0 {
+							return true
+						}
+						// is the same module state (re)established outside the clauses (before the switch or in the tail)?
+						sw := arm.Switch
+						reestablished := false
+						ast.Inspect(fd.Decl.Body, func(m ast.Node) bool {
+							oc, ok := m.(*ast.CallExpr)
+							if !ok || (oc.Pos() >= sw.Pos() && oc.End() <= sw.End()) {
+								return true
+							}
+							ose, ok := oc.Fun.(*ast.SelectorExpr)
+							if !ok {
+								return true
+							}
+							ofo, _ := info.ObjectOf(ose.Sel).(*types.Func)
+							if ofo == nil || ofo.Pkg() == nil {
+								return true
+							}
+							// direct call on the same module, or a Blockchain method that calls into it
+							var tw map[string]bool
+							if ofo.Pkg() == fo.Pkg() {
+								tw = ws.Trans[ofo.Origin()]
+							} else if ofo.Pkg() == pk.Types {
+								if od := c.P.DeclOf(ofo); od != nil {
+									tw = map[string]bool{}
+									ast.Inspect(od.Decl.Body, func(q ast.Node) bool {
+										if qc, ok := q.(*ast.CallExpr); ok {
+											if qs, ok := qc.Fun.(*ast.SelectorExpr); ok {
+												if qf, _ := info.ObjectOf(qs.Sel).(*types.Func); qf != nil && qf.Pkg() == fo.Pkg() {
+													for k, v := range ws.Trans[qf.Origin()] {
+														if v {
+															tw[k] = true
+														}
+													}
+												}
+											}
+										}
+										return true
+									})
+								}
+							}
+							all := len(tw) > 0
+							for j := 0; j < st.NumFields(); j++ {
+								s := symOf(st.Field(j))
+								if ws.Trans[fo.Origin()][s] && !tw[s] {
+									all = false
+								}
+							}
+							if all {
+								reestablished = true
+							}
+							return true
+						})
+						key := fmt.Sprintf("%s.stage.%s.in-memory-only.%s.%s", name, lbl, nt.Obj().Name(), fo.Name())
+						if reestablished {
+							c.OK(key, c.P.Pos(call.Pos()), fmt.Sprintf("%s.%s sets in-memory state (%s) that the common path sets as well", nt.Obj().Name(), fo.Name(), strings.Join(memFields, ",")))
+						} else if i+1 < len(arms) {
+							c.Fail(key, c.P.Pos(call.Pos()), fmt.Sprintf("%s: stage %s calls %s.%s, which also sets in-memory state of the module (%s); a run resumed from a later stage skips this clause and nothing on the common path sets that state: the module stays uninitialised after the resumed operation", name, lbl, nt.Obj().Name(), fo.Name(), strings.Join(memFields, ",")))
+						}
+						return true
+					})
+				}
+			}
+		}
+	}
+	if len(needs) == 0 {
+		c.OK("init.pre-dispatch-reads", c.P.Pos(in.Decl.Pos()), "the start-up path reads no block/header records before dispatching on the stage marker")
+	} else {
+		c.Note("init reads before dispatch via %s: %v", strings.Join(preNames, ","), needs)
+	}
+}
+
+func (f *FuncCFG) recvObj(fd *FuncDecl) types.Object {
+	if fd.Decl.Recv == nil || len(fd.Decl.Recv.List) != 1 || len(fd.Decl.Recv.List[0].Names) != 1 {
+		return nil
+	}
+	return f.Info.Defs[fd.Decl.Recv.List[0].Names[0]]
 }
